@@ -22,10 +22,11 @@ CHECKS = {
    technique="Coq refinement proof by induction over operation lists + extracted-model vs implementation correspondence + regenerated facts"),
  "C02": dict(
    text="Proof (Coq): on the cursor model of iwkv.c (_cursor_to_lr with the head/tail pseudo nodes, node copies, skip marks) a scan from before-first with NEXT "
-        "returns exactly the records of the chain, in chain order, once each, for every chain of non-empty nodes (scan_next_all); with C01 that is key order. "
-        "EQ/GE positioning, PREV and the positioned operations are in the model and compared with the implementation call by call (answers and cursor "
+        "returns exactly the records of the chain, in chain order, once each, for every chain of non-empty nodes (scan_next_all), AFTER_LAST+PREV the exact "
+        "reverse (scan_prev_all); EQ positions on the key or reports not-found whatever the cursor did before (cursor_eq_spec); with C01 that is key order. "
+        "GE positioning and the positioned operations are in the model and compared with the implementation call by call (answers and cursor "
         "bookkeeping cnpos/skip_next/copy), and decided on the implementation by a reference-map oracle; no theorem is proved about them.",
-   design="5/C02", note=TB + "Partial: only the forward scan has a theorem. The oracle tracks the cursor position from the implementation's own answers.",
+   design="5/C02", note=TB + "Partial: GE and the positioned read/write operations have no theorem. The oracle tracks the cursor position from the implementation's own answers.",
    technique="Coq proof (induction over nodes and slots) + extracted cursor model vs implementation correspondence + reference oracle"),
  "C03": dict(
    text="Proof (Coq), partial: the field codecs of the file image are inverse (little-endian header fields, variable-length numbers of the data-block index as "
@@ -70,7 +71,8 @@ CHECKS = {
    technique="Coq proofs over the image model + backup-under-load scenarios with a snapshot oracle"),
  "C09": dict(
    text="Proof (Coq), partial: the list-level facts behind every cursor fix-up loop (insert: cnpos>=idx -> cnpos+1; remove: cnpos>idx -> cnpos-1, same slot -> successor; "
-        "split at the pivot: kept part / new node at cnpos-pivot) - the cursor keeps designating its record, for all node contents and slots. The full fix-up model "
+        "split at the pivot: kept part / new node at cnpos-pivot) and their cursor-level forms (fix_insert_keeps, fix_remove_keeps, fix_remove_current: the fixed-up cursor "
+        "reads the record it read before, resp. the successor with skip_next = 1) - for all node contents and slots. The full fix-up model "
         "(KV/Cursor.v, all loops incl. node removal and stale-copy refresh) is compared with the implementation's cursor bookkeeping after every mutation, and a "
         "reference oracle decides skip / repeat / resurrect on the implementation for scans continued across mutations.",
    design="5/C09", note=TB + "Partial: scan_stable and fresh_inv are stated as open goals, not proved.",
